@@ -72,6 +72,10 @@ DIRECTED = [
 
 # inheritance graphs in which an ancestor is reached twice before the parent that declares the field (lib/tdgen.py)
 DIRECTED += tdgen.diamond_cases()
+# a class forward-declared (also in an included header) and defined later: the later definition is what the name denotes
+DIRECTED += tdgen.forward_class_cases()
+# a local name spelled like an earlier def / defset: the innermost declaration wins
+DIRECTED += tdgen.shadowed_def_cases()
 
 
 def gen_batch(ctx, n, probe_every=3):
@@ -220,7 +224,7 @@ def run(ctx):
                             "out_of_scope_probes": len(p.notfound), "features": sorted(p.features)})
     # directed inputs: defects of the unchanged tree already reported (known findings when registered)
     known = vlib.known_keys("C05")
-    dws = [{"files": {"/w/main.td": d["text"]}, "root": "/w/main.td"} for d in DIRECTED]
+    dws = [{"files": d.get("files", {"/w/main.td": d["text"]}), "root": "/w/main.td"} for d in DIRECTED]
     for d, o in zip(DIRECTED, sl.impl(bindir, dws)):
         at = sl.impl_at(o, "/w/main.td")
         got = at[d["use"][0]][0]
